@@ -759,8 +759,16 @@ def run(index: RepoIndex, rep) -> None:
     okr = False
     got = ''
     if len(rets) == 1:
-        ex = ast.parse(unprefix(src(w.expand(rets[0].value))), mode='eval').body
+        from ..inline import inline_pure_exprs
+        ex0 = inline_pure_exprs(index, srt.module, None, w.expand(rets[0].value))
+        ex = ast.parse(unprefix(src(ex0)), mode='eval').body
         got = src(ex)
+        if not (isinstance(ex, ast.Compare) and len(ex.ops) == 1 and any(
+                isinstance(x, ast.Call) and src(x.func) == 'rng.random'
+                for x in (ex.left, ex.comparators[0]))):
+            raise AnalysisError(f'stochastic_raytracing: `{got[:80]}` is not a comparison of one '
+                                f'rng.random sample with the lit fraction (outside the grammar '
+                                f'of C06.R5)')
         if isinstance(ex, ast.Compare) and len(ex.ops) == 1:
             l, r_, op = ex.left, ex.comparators[0], ex.ops[0]
             probs = f'np.nan_to_num({snum} / {sden})'
